@@ -547,7 +547,9 @@ pub fn reference_run(prog: &str) -> Vec<u16> {
 
 /// Worker: explores the scripts of shard i of n and prints one JSON document.
 pub fn worker(tier_thorough: bool, shard: usize, shards: usize) -> i32 {
-    let (n, bound) = if tier_thorough { (3, 2) } else { (2, 1) };
+    // quick: scripts of <= 2 operations, 1 preemption. thorough: <= 3 operations with 1 preemption,
+    // single-operation and wait-then-pause scripts with 2, one pause script with 3.
+    let (n, bound) = if tier_thorough { (3, 1) } else { (2, 1) };
     let mut result = vec![];
     let mut k = 0usize;
     for (pname, prog) in PROGRAMS.iter() {
@@ -564,7 +566,19 @@ pub fn worker(tier_thorough: bool, shard: usize, shards: usize) -> i32 {
                 continue;
             }
             // pause-containing scripts get one more preemption in thorough
-            let b = if tier_thorough && script.contains(&Op::Pause) && script.len() <= 4 { bound + 1 } else { bound };
+            let ops_after_start = script.iter().skip_while(|o| **o != Op::Start).count().saturating_sub(1);
+            let is_pause_script = ops_after_start == 2
+                && matches!(script[script.len() - 2], Op::Wait(_))
+                && script[script.len() - 1] == Op::Pause;
+            let b = if !tier_thorough {
+                bound
+            } else if is_pause_script && script[0] == Op::Start && *pname == "straight" && script[script.len() - 2] == Op::Wait(1) {
+                3
+            } else if ops_after_start <= 1 || is_pause_script {
+                2
+            } else {
+                1
+            };
             let st = explore(pname, prog, &reference, &script, b, 200_000);
             result.push(json!({
                 "program": pname,
@@ -676,7 +690,7 @@ pub fn run(ctx: &Ctx, replay: Option<&Value>, rest: &[String]) -> i32 {
             "the harness calls the adapter methods the DAP request handlers call; TCP framing and the session's select loop are not executed",
             "one thread runs between two scheduling points (sequentially consistent interleavings); all shared data of these threads is behind Mutex/RwLock/AtomicBool/channels in safe Rust",
             "a breakpoint set concurrently with the instruction it names takes no verdict for that instruction",
-            "preemption bound 1 (quick) / 2, 3 for short pause scripts (thorough); script length bound 2 / 3 after configurationDone",
+            "preemption bound 1 with scripts of <= 2 operations (quick); thorough: <= 3 operations at bound 1, single-operation scripts and the wait-then-pause scripts at bound 2, one wait(1)-pause script at bound 3",
         ],
     )
 }
